@@ -466,3 +466,206 @@ def number_format_rule(ctx, rule, fv, who, root, norm_term, expect_norm_only=Fal
                      line_of(n))
         n_ok += 1
     return n_ok
+
+
+# --------------------------------------------------------------------------- reader discipline (C05/C06/C07/C10)
+
+SEQ_NEXT = "<ktio::seq::Sequences as std::iter::Iterator>::next"
+
+
+def is_rayon_parallel_call(n):
+    c = cname(n)
+    return c.startswith("rayon::iter::") or c in ("rayon::Scope::spawn", "rayon::ThreadPool::spawn",
+                                                  "rayon::spawn", "rayon::Scope::spawn_fifo",
+                                                  "rayon::join", "rayon::ThreadPool::join")
+
+
+def is_spawn(n):
+    return cname(n) in ("rayon::Scope::spawn", "rayon::ThreadPool::spawn", "rayon::spawn",
+                        "rayon::Scope::spawn_fifo", "rayon::Scope::spawn_broadcast", "std::thread::spawn",
+                        "std::thread::Scope::spawn", "rayon::ScopeFifo::spawn_fifo")
+
+
+def rule_locked_take(ctx, rule, fv, expect):
+    """Inside spawned workers a record is taken only through a MutexGuard (record and ordinal
+    are produced by one &mut call made while the reader lock is held)."""
+    n_sites = 0
+    for n in fv.nodes:
+        is_next = n.get("k") in ("mcall", "call") and rname(n) == SEQ_NEXT
+        is_for = n.get("k") == "for" and "ktio::seq::Sequences<" in n.get("iter_ty", "") \
+            and not n.get("iter_ty", "").startswith("std::sync")
+        if not (is_next or is_for):
+            continue
+        if fv.in_closure_passed_to(n, is_spawn) is None:
+            continue
+        n_sites += 1
+        key = "%s:take@%d" % (fv.path, n_sites)
+        if is_for:
+            ctx.fail(rule, key, "a worker iterates the shared reader directly (no lock-held take)", line_of(n))
+            continue
+        recv = call_args(n)[0]
+        rty = recv.get("ty", "")
+        if recv.get("k") == "addr":
+            rty = recv["e"].get("ty", "")
+        ctx.check(rule, key, rty.startswith("std::sync::MutexGuard<"),
+                  "record taken through %s" % rty[:60],
+                  "worker takes a record through `%s`, not through a MutexGuard of the shared reader" % rty[:80],
+                  line_of(n))
+    if n_sites < expect:
+        ctx.fail(rule, "%s:take:floor" % fv.path, "expected %d lock-held take site(s) in spawned workers of %s, "
+                 "found %d" % (expect, fv.path, n_sites), fv.fn["sp"])
+    return n_sites
+
+
+# --------------------------------------------------------------------------- batch writers (C05/C08/C11/C12/C16)
+
+def buffer_local(fv):
+    """the pending-batch Vec: a mutable local initialised by Vec::with_capacity / Vec::new that receives push(record)"""
+    for n in fv.nodes:
+        if n.get("k") == "mcall" and cname(n).endswith("Vec::push") and n["recv"].get("k") == "local":
+            rt = n["recv"].get("ty", "")
+            if "ktio::seq::Sequence" in rt:
+                return n["recv"]["id"], n["recv"]["name"]
+    return None, None
+
+
+def closure_of_local(fv, lid):
+    b = fv.binds.get(lid)
+    if b and b["val"][0] == "node" and b["val"][1] is not None and b["val"][1].get("k") == "closure":
+        return b["val"][1]
+    return None
+
+
+def flush_sites(fv, buf):
+    """calls that write the batch held in `buf` to the sink"""
+    out = []
+    for n in fv.nodes:
+        if n.get("k") == "call" and n["f"].get("k") == "local":
+            clo = closure_of_local(fv, n["f"]["id"])
+            if clo is not None and any(cname(x).endswith("Write::write_all") for x in walk(clo)
+                                       if x.get("k") == "mcall"):
+                if any(fv.term(a) == buf for a in n.get("args", [])):
+                    out.append(n)
+        elif n.get("k") == "mcall" and cname(n).endswith("Write::write_all"):
+            # inline flush: data depends on the buffer, and not inside a helper closure bound to a local
+            enc = fv.enclosing(n, ("closure",))
+            if enc is not None:
+                par = fv.parent.get(id(enc))
+                if par is not None and par.get("k") == "let":
+                    continue
+            data = fv.term(n["args"][0]) if n.get("args") else ("none",)
+            if contains(data, lambda s: s == buf):
+                out.append(n)
+    return out
+
+
+NONEMPTY_OK = "non-emptiness of the buffer (`!buffer.is_empty()`, `buffer.len() > 0`, `buffer.len() != 0`) or no condition"
+
+
+def is_nonempty_test(t, pol, buf):
+    """cond t with polarity pol states that buf is non-empty"""
+    if t[0] == "un" and t[1] == "!" and pol:
+        return t[2][0] == "call" and t[2][1].endswith("::is_empty") and t[2][2] == buf
+    if t[0] == "call" and t[1].endswith("::is_empty") and t[2] == buf:
+        return not pol
+    if t[0] == "bin" and pol:
+        ln = lambda x: is_len_of(x, buf)
+        if t[1] == "<" and t[2] == L(0) and ln(t[3]):
+            return True
+        if t[1] == "!=" and ((t[2] == L(0) and ln(t[3])) or (t[3] == L(0) and ln(t[2]))):
+            return True
+        if t[1] == "<=" and t[2] == L(1) and ln(t[3]):
+            return True
+    return False
+
+
+def rule_flush_pairing(ctx, rule, fv, who):
+    """A8: push -> flush before clear; tail flush guarded only by non-emptiness of the buffer."""
+    lid, name = buffer_local(fv)
+    if lid is None:
+        ctx.fail(rule, "%s:buffer" % who, "pending-batch buffer (Vec<Sequence> receiving push) not found", fv.fn["sp"])
+        return
+    buf = ("local", name, lid)
+    loop = None
+    for n in fv.nodes:
+        if n.get("k") == "for" and "ktio::seq::Sequences<" in n.get("iter_ty", ""):
+            loop = n
+    if loop is None:
+        ctx.fail(rule, "%s:loop" % who, "sequential record loop not found", fv.fn["sp"])
+        return
+    flushes = flush_sites(fv, buf)
+    in_loop = [f for f in flushes if any(a is loop for a in fv.ancestors(f))]
+    tail = [f for f in flushes if f not in in_loop]
+    fl_ids = set(id(f) for f in flushes)
+
+    def want(n):
+        if id(n) in fl_ids:
+            return True
+        if n.get("k") == "mcall" and n["recv"].get("k") == "local" and n["recv"]["id"] == lid \
+                and cname(n).split("::")[-1] in ("push", "clear", "truncate", "drain", "pop", "remove", "swap_remove"):
+            return True
+        return False
+    try:
+        paths = enum_paths(loop["body"], want)
+    except TooManyPaths:
+        ctx.fail(rule, "%s:paths" % who, "too many paths", line_of(loop))
+        return
+    bad_clear = bad_push = None
+    for ev, ex in paths:
+        seen_push = seen_flush = False
+        for e in ev:
+            if e[0] != "ev":
+                continue
+            n = e[1]
+            if id(n) in fl_ids:
+                seen_flush = True
+                if not seen_push:
+                    bad_push = n
+            elif cname(n).endswith("::push"):
+                seen_push = True
+                seen_flush = False
+            else:  # clear & friends
+                if not seen_flush:
+                    bad_clear = n
+        if not seen_push and ex[0] in ("fall", "continue"):
+            bad_push = bad_push or loop
+    ctx.check(rule, "%s:record_pushed" % who, bad_push is None and len(paths) >= 1,
+              "every record is pushed before any flush on all %d paths of the loop body" % len(paths),
+              "a path of the record loop does not push the record into the batch (or flushes before pushing)",
+              line_of(bad_push) if bad_push else None)
+    ctx.check(rule, "%s:flush_before_clear" % who, bad_clear is None and len(in_loop) >= 1,
+              "the batch is written before it is cleared (%d in-loop flush site)" % len(in_loop),
+              "the pending batch is cleared without having been written first" if bad_clear is not None else
+              "no in-loop flush of the batch found", line_of(bad_clear) if bad_clear else line_of(loop))
+    # tail flush
+    if not tail:
+        ctx.fail(rule, "%s:tail_flush" % who, "no flush of the pending batch after the record loop: the last "
+                 "batch would be dropped", line_of(loop))
+        return
+    ok_tail = None
+    for f in tail:
+        gs = [(fv.term(c), pol) for c, pol in fv.guards(f)]
+        # only guards established after the loop matter: those not shared with the loop
+        lg = [(fv.term(c), pol) for c, pol in fv.guards(loop)]
+        own = [g for g in gs if g not in lg]
+        if all(is_nonempty_test(t, pol, buf) for t, pol in own):
+            ok_tail = f
+    f0 = tail[0]
+    own0 = [g for g in [(fv.term(c), pol) for c, pol in fv.guards(f0)]
+            if g not in [(fv.term(c), pol) for c, pol in fv.guards(loop)]]
+    ctx.check(rule, "%s:tail_flush" % who, ok_tail is not None,
+              "tail flush runs whenever the buffer is non-empty",
+              "the flush after the loop is conditioned on %s; it must depend only on %s — records that add "
+              "nothing to that condition (e.g. records with no bases) are silently dropped"
+              % ([("" if p else "!") + show(t) for t, p in own0], NONEMPTY_OK), line_of(f0))
+
+
+def rule_sink_sequential(ctx, rule, fv, who):
+    """C05.W: every write to the output sink happens outside closures handed to rayon."""
+    ws = [n for n in fv.nodes if n.get("k") == "mcall" and cname(n).endswith("Write::write_all")]
+    bad = [n for n in ws if fv.in_closure_passed_to(n, is_rayon_parallel_call) is not None]
+    ctx.check(rule, "%s:sink_sequential" % who, ws and not bad,
+              "%d write(s) to the sink, all on the sequential path" % len(ws),
+              "the output sink is written from inside a closure run by rayon workers: row order would depend "
+              "on scheduling" if bad else "no write to the sink found",
+              line_of(bad[0]) if bad else fv.fn["sp"])
